@@ -108,6 +108,13 @@ class Net(object):
         self.in_send = {"A": 0, "B": 0}
         self.max_in_send = 0
         self.on_write = None        # optional callback(side, data) called inside write (re-entrancy injection)
+        self.nwrites = 0
+        self.max_writes = None      # logical step bound per case: exceeding it ends the link and sets runaway
+        self.runaway = False
+
+    def new_case(self, max_writes=4000):
+        self.nwrites = 0
+        self.max_writes = max_writes
 
     # ---- held delivery ----
     def pipe(self, direction):
@@ -259,6 +266,12 @@ class MemStream(Stream):
             raise EOFError("stream has been closed")
         self._fault("write")
         tx = self.tx
+        net = self.net
+        net.nwrites += 1
+        if net.max_writes is not None and net.nwrites > net.max_writes:
+            net.runaway = True
+            self.close()
+            raise EOFError("runaway exchange: more than %d writes in one case" % net.max_writes)
         if tx.reader_closed:
             if self.net.epipe:
                 self.close()
